@@ -1820,9 +1820,10 @@ static void MPSreadRanges(MPSInput& mps,  LPRowSetBase<R>& rset, const NameSet& 
             // EQ
             if((rset.lhs(idx) > R(-infinity)) && (rset.rhs_w(idx) <  R(infinity)))
             {
-               assert(rset.lhs(idx) == rset.rhs(idx));
-
-               if(val >= 0)
+               // a second range for the same row finds it ranged already: keep the first one
+               if(rset.lhs(idx) != rset.rhs(idx))
+                  mps.entryIgnored("Range", mps.field1(), "row", mps.field2());
+               else if(val >= 0)
                   rset.rhs_w(idx) += val;
                else
                   rset.lhs_w(idx) += val;
@@ -1849,9 +1850,10 @@ static void MPSreadRanges(MPSInput& mps,  LPRowSetBase<R>& rset, const NameSet& 
                // EQ
                if((rset.lhs(idx) > R(-infinity)) && (rset.rhs(idx) <  R(infinity)))
                {
-                  assert(rset.lhs(idx) == rset.rhs(idx));
-
-                  if(val >= 0)
+                  // a second range for the same row finds it ranged already: keep the first one
+                  if(rset.lhs(idx) != rset.rhs(idx))
+                     mps.entryIgnored("Range", mps.field1(), "row", mps.field4());
+                  else if(val >= 0)
                      rset.rhs_w(idx) += val;
                   else
                      rset.lhs_w(idx) += val;
